@@ -54,32 +54,142 @@ const (
 	c04Broadcast = "field:" + c02P + ".Transport.Broadcast"
 	c04Decide    = "field:" + c02P + ".Definition.Decide"
 	c04IsLeader  = "field:" + c02P + ".Definition.IsLeader"
-	c04Compare   = "static:" + c02P + ".compare"
-	c04Classify  = "static:" + c02P + ".classify"
-	c04Await     = "static:" + c02P + ".awaitCompare"
-	c04NextMin   = "static:" + c02P + ".nextMinRound"
 )
+
+// the in-package helpers the rules treat as opaque events; resolved by c04Anchors (by name, and when a helper was
+// renamed by its structural role)
+var (
+	c04Compare  = "static:" + c02P + ".compare"
+	c04Classify = "static:" + c02P + ".classify"
+	c04Await    = "static:" + c02P + ".awaitCompare"
+)
+
+type c04Anch struct {
+	compare, await, classify *ssa.Function
+}
+
+// c04Anchors finds classify (the function that turns a message into an upon rule), compare (the function that waits
+// for the local comparison under the round timer) and the function compare delegates the wait to. The names are
+// tried first; failing that the role decides: classify is the top-level function whose first result is an UponRule,
+// compare the one taking a timer channel and returning (value, error) — in both cases the outermost such function
+// (not one only called by other candidates); the wait function is compare's callee that is handed the timer channel,
+// or compare itself.
+func c04Anchors(c *rt.Ctx) c04Anch {
+	var a c04Anch
+	pkg := c.Pkg(c02P)
+	sp := c.P.SSAPkg(c02P)
+	_ = pkg
+	var tops []*ssa.Function
+	for _, f := range an.PkgFuncsAll(sp) {
+		if f.Parent() == nil && len(f.Blocks) > 0 {
+			tops = append(tops, f)
+		}
+	}
+	callers := func(g *ssa.Function) []*ssa.Function {
+		var out []*ssa.Function
+		for _, f := range an.PkgFuncsAll(sp) {
+			for _, in := range an.Instrs(f, false) {
+				if ci, ok := in.(ssa.CallInstruction); ok {
+					if t := ci.Common().StaticCallee(); t != nil && an.Orig(t) == g {
+						out = append(out, c04Outermost(f))
+					}
+				}
+			}
+		}
+		return out
+	}
+	outermost := func(cands []*ssa.Function) *ssa.Function {
+		isCand := map[*ssa.Function]bool{}
+		for _, f := range cands {
+			isCand[f] = true
+		}
+		var keep []*ssa.Function
+		for _, f := range cands {
+			ext := false
+			for _, g := range callers(f) {
+				if !isCand[g] {
+					ext = true
+				}
+			}
+			if ext {
+				keep = append(keep, f)
+			}
+		}
+		if len(keep) == 1 {
+			return keep[0]
+		}
+		return nil
+	}
+	timerParam := func(f *ssa.Function) bool {
+		for _, p := range f.Params {
+			if ch, ok := p.Type().Underlying().(*types.Chan); ok && an.TypeName(ch.Elem()) == "time.Time" {
+				return true
+			}
+		}
+		return false
+	}
+	if a.classify = c.FnOpt(c02P + ".classify"); a.classify == nil {
+		var cands []*ssa.Function
+		for _, f := range tops {
+			if res := f.Signature.Results(); res.Len() >= 1 && an.TypeName(res.At(0).Type()) == c02P+".UponRule" && f.Signature.Recv() == nil {
+				cands = append(cands, f)
+			}
+		}
+		a.classify = outermost(cands)
+	}
+	if a.compare = c.FnOpt(c02P + ".compare"); a.compare == nil {
+		var cands []*ssa.Function
+		for _, f := range tops {
+			if res := f.Signature.Results(); res.Len() == 2 && an.IsErrorType(res.At(1).Type()) && timerParam(f) {
+				cands = append(cands, f)
+			}
+		}
+		a.compare = outermost(cands)
+	}
+	if a.classify == nil {
+		c.Bail("the function that classifies a received message (returns an UponRule) was not found")
+	}
+	if a.compare == nil {
+		c.Bail("the function that waits for the value comparison under the round timer was not found")
+	}
+	{
+		for _, in := range an.Instrs(a.compare, false) {
+			if call, ok := in.(*ssa.Call); ok {
+				if g := call.Call.StaticCallee(); g != nil && an.Orig(g).Pkg == sp && an.Orig(g).Parent() == nil && timerParam(an.Orig(g)) {
+					a.await = an.Orig(g)
+				}
+			}
+		}
+		if a.await == nil {
+			a.await = a.compare // the wait is written into compare itself
+		}
+	}
+	c04Compare = "static:" + c02Strip(an.FuncName(a.compare))
+	c04Classify = "static:" + c02Strip(an.FuncName(a.classify))
+	c04Await = "static:" + c02Strip(an.FuncName(a.await))
+	return a
+}
 
 func c04IsEvent(name string) bool {
 	switch name {
-	case c04NewTimer, c04Broadcast, c04Decide, c04Compare, c04Classify:
+	case c04NewTimer, c04Broadcast, c04Decide:
 		return true
 	}
-	return false
+	return name == c04Compare || name == c04Classify
 }
 
 type c04Run struct {
 	c         *rt.Ctx
+	anch      c04Anch
 	fn        *ssa.Function
 	sel       *ssa.Select
 	timerK    int
 	recvK     int
 	recvExt   int // tuple index of the received message
 	x         *c04Exec
-	its       []*c04Trace // from the select to the next select (or a return / panic)
-	pre       []*c04Trace // from the entry of Run to the first select
-	roundAl   *ssa.Alloc
-	roundPath []int
+	its       []*c04Trace            // from the select to the next select (or a return / panic)
+	pre       []*c04Trace            // from the entry of Run to the first select
+	chainFns  map[*ssa.Function]bool // Run and the functions between Run and the event select (outermost functions)
 	roundAddr string
 	roundAt0  *c04T // the address term
 	roundInit *c04T
@@ -98,52 +208,106 @@ func c04Idx(in ssa.Instruction) int {
 }
 
 func c04NewRun(c *rt.Ctx) *c04Run {
-	r := &c04Run{c: c, fn: c.Fn(c02P + ".Run"), names: map[int64]string{}, rules: map[string]int64{}, msgTypes: map[string]int64{}, timerK: -1, recvK: -1}
-	// the event loop's select: the one that receives from Transport.Receive
-	for _, in := range an.Instrs(r.fn, true) {
-		sel, ok := in.(*ssa.Select)
-		if !ok {
-			continue
+	anch := c04Anchors(c)
+	r := &c04Run{c: c, anch: anch, fn: c.Fn(c02P + ".Run"), names: map[int64]string{}, rules: map[string]int64{}, msgTypes: map[string]int64{}, timerK: -1, recvK: -1}
+	// the event loop's select: the one that receives from Transport.Receive. It lies in Run, in a function literal
+	// of Run or in an in-package function Run reaches through static calls (the loop moved into a helper / a method of
+	// a state object).
+	probe := c04NewExec(c04Cfg{root: r.fn, isEvent: c04IsEvent})
+	reach := map[*ssa.Function]bool{}
+	var order []*ssa.Function
+	var visit func(f *ssa.Function, d int)
+	visit = func(f *ssa.Function, d int) {
+		if f == nil || reach[f] || len(f.Blocks) == 0 || d > 6 {
+			return
 		}
-		n := 0
-		for k, st := range sel.States {
-			if st.Dir != types.RecvOnly {
+		if f.Pkg != r.fn.Pkg && c04Outermost(f).Pkg != r.fn.Pkg {
+			return
+		}
+		reach[f] = true
+		order = append(order, f)
+		for _, in := range an.Instrs(f, false) {
+			switch a := in.(type) {
+			case *ssa.Call:
+				visit(probe.staticCallee(&a.Call), d+1)
+			case *ssa.MakeClosure:
+				if g, ok := a.Fn.(*ssa.Function); ok {
+					visit(g, d) // a literal of a reached function is its own code
+				}
+			}
+		}
+	}
+	visit(r.fn, 0)
+	for _, f := range order {
+		for _, in := range an.Instrs(f, false) {
+			sel, ok := in.(*ssa.Select)
+			if !ok {
 				continue
 			}
-			if key, _, ok := an.FieldOf(st.Chan); ok && c02Strip(key) == c02P+".Transport.Receive" {
-				if r.sel != nil {
-					c.Bail("Run: several receives from Transport.Receive")
+			n := 0
+			for k, st := range sel.States {
+				if st.Dir != types.RecvOnly {
+					continue
 				}
-				r.sel, r.recvK, r.recvExt = sel, k, 2+n
+				if key, _, ok := an.FieldOf(st.Chan); ok && c02Strip(key) == c02P+".Transport.Receive" {
+					if r.sel != nil {
+						c.Bail("Run: several receives from Transport.Receive")
+					}
+					r.sel, r.recvK, r.recvExt = sel, k, 2+n
+				}
+				n++
 			}
-			n++
 		}
 	}
 	if r.sel == nil {
 		c.Bail("Run: no select receiving from Transport.Receive")
 	}
-	probe := c04NewExec(c04Cfg{root: r.fn, isEvent: c04IsEvent})
-	var startIn *ssa.Call
-	switch host := r.sel.Parent(); {
-	case host == r.fn:
-		if an.InnermostLoop(r.fn, r.sel.Block()) == nil {
-			c.Bail("Run: the select over Transport.Receive is not inside a loop")
-		}
-	case host.Parent() == r.fn:
-		// the select lies in a function literal (a "next event" helper) called from Run's loop
-		for _, in := range an.Instrs(r.fn, false) {
-			if call, ok := in.(*ssa.Call); ok && probe.staticCallee(&call.Call) == host {
-				if startIn != nil {
-					c.Bail("Run: the helper holding the event select is called from several places")
+	// the chain of calls that leads from Run to the function holding the select (empty: the select lies in Run itself)
+	var chain []*ssa.Call
+	{
+		host := r.sel.Parent()
+		var paths [][]*ssa.Call
+		var dfs func(f *ssa.Function, acc []*ssa.Call, on map[*ssa.Function]bool)
+		dfs = func(f *ssa.Function, acc []*ssa.Call, on map[*ssa.Function]bool) {
+			if f == host {
+				paths = append(paths, append([]*ssa.Call(nil), acc...))
+				return
+			}
+			if len(acc) >= 4 || on[f] || len(paths) > 4 {
+				return
+			}
+			on[f] = true
+			for _, in := range an.Instrs(f, false) {
+				if call, ok := in.(*ssa.Call); ok {
+					if g := probe.staticCallee(&call.Call); g != nil && reach[g] {
+						dfs(g, append(acc, call), on)
+					}
 				}
-				startIn = call
+			}
+			on[f] = false
+		}
+		dfs(r.fn, nil, map[*ssa.Function]bool{})
+		switch len(paths) {
+		case 0:
+			c.Bail("Run: the function holding the event select is not reached from Run through static calls")
+		case 1:
+			chain = paths[0]
+		default:
+			c.Bail("Run: the function holding the event select is called from several places")
+		}
+		inLoop := an.InnermostLoop(host, r.sel.Block()) != nil
+		for _, call := range chain {
+			if an.InnermostLoop(call.Parent(), call.Block()) != nil {
+				inLoop = true
 			}
 		}
-		if startIn == nil || an.InnermostLoop(r.fn, startIn.Block()) == nil {
-			c.Bail("Run: the helper holding the event select is not called from a loop of Run")
+		if !inLoop {
+			c.Bail("Run: the select over Transport.Receive is not inside a loop")
 		}
-	default:
-		c.Bail("Run: the select over Transport.Receive is nested too deeply in helpers")
+	}
+	r.chainFns = map[*ssa.Function]bool{c04Outermost(r.fn): true, c04Outermost(r.sel.Parent()): true}
+	for _, call := range chain {
+		r.chainFns[c04Outermost(call.Parent())] = true
 	}
 	for k, st := range r.sel.States {
 		ch, ok := st.Chan.Type().Underlying().(*types.Chan)
@@ -177,12 +341,12 @@ func c04NewRun(c *rt.Ctx) *c04Run {
 			c.Bail("constant %s.%s not found", c02P, n)
 		}
 	}
-	r.x = c04NewExec(c04Cfg{root: r.fn, stop: r.sel, startB: r.sel.Block(), startI: c04Idx(r.sel), startIn: startIn, isEvent: c04IsEvent})
+	r.x = c04NewExec(c04Cfg{root: r.fn, stop: r.sel, startB: r.sel.Block(), startI: c04Idx(r.sel), chain: chain, isEvent: c04IsEvent})
 	r.its = r.x.run()
 	if r.x.err != "" {
 		c.Bail("Run: path enumeration of the event loop failed: %s", r.x.err)
 	}
-	px := c04NewExec(c04Cfg{root: r.fn, stop: r.sel, isEvent: c04IsEvent})
+	px := c04NewExec(c04Cfg{root: r.fn, stop: r.sel, chain: chain, isEvent: c04IsEvent})
 	px.allocID = r.x.allocID
 	r.pre = px.run()
 	if px.err != "" {
@@ -219,53 +383,59 @@ func c04NewRun(c *rt.Ctx) *c04Run {
 	if raddr == nil {
 		c.Bail("Run: the round argument of the broadcasts is not read from a state variable of Run")
 	}
-	root, path := c04AddrRoot(raddr)
-	if root.kind != 'a' || root.al.Parent() != r.fn {
+	if !r.isRunState(raddr) {
 		c.Bail("Run: the round state is not a variable of Run")
 	}
-	r.roundAl, r.roundPath = root.al, path
 	r.roundAddr, r.roundAt0, r.roundInit = raddr.k, raddr, r.x.initOf(raddr)
 	return r
 }
 
-// roundStores counts the stores into the round state in the event loop of Run and in its function literals; direct lists the
-// function literals that contain one.
-func (r *c04Run) roundStores() (n int, direct []*ssa.Function) {
-	for _, f := range r.x.family {
-		has := false
-		for _, in := range an.Instrs(f, false) {
-			if st, ok := in.(*ssa.Store); ok {
-				if al, p := r.x.staticAddr(st.Addr); al == r.roundAl && c04SamePath(p, r.roundPath) {
-					// the initialisation before the loop does not count
-					if f != r.fn || an.InnermostLoop(f, st.Block()) != nil {
-						n++
-					}
-					has = true
+// roundStores counts the store instructions that write the round state on some path of an iteration of the event
+// loop; direct lists the functions other than the loop's own that contain one (closures, helpers, methods).
+func (r *c04Run) roundStores() (n int, direct []*ssa.Function, at map[*ssa.Function]ssa.Instruction) {
+	seen := map[ssa.Instruction]bool{}
+	at = map[*ssa.Function]ssa.Instruction{}
+	loopFn := r.sel.Parent()
+	for _, tr := range r.its {
+		for _, e := range tr.evs {
+			if e.kind != "store" || e.addr.k != r.roundAddr || e.in == nil || seen[e.in] {
+				continue
+			}
+			seen[e.in] = true
+			n++
+			if f := e.in.Parent(); f != loopFn && f != r.fn {
+				if _, has := at[f]; !has {
+					direct = append(direct, f)
+					at[f] = e.in
 				}
 			}
 		}
-		if has && f != r.fn {
-			direct = append(direct, f)
-		}
 	}
+	sort.Slice(direct, func(i, j int) bool { return direct[i].Pos() < direct[j].Pos() })
 	return
 }
 
 // roundInitType: the type of the round state.
 func (r *c04Run) roundInitType() types.Type {
-	typ := r.roundAl.Type().Underlying().(*types.Pointer).Elem()
-	for _, i := range r.roundPath {
-		if st, ok := typ.Underlying().(*types.Struct); ok && i < st.NumFields() {
-			typ = st.Field(i).Type()
-		}
+	if r.roundAt0.typ != nil {
+		return r.roundAt0.typ
 	}
-	return typ
+	return types.Typ[types.Int64]
 }
 
-// isRunState: addr denotes a variable of Run (or a field of one).
+// isRunState: addr denotes a variable of Run or of the function running the event loop (or a field of one), or a
+// location inside an object that existed before the path started (a state object handed in as parameter / receiver).
 func (r *c04Run) isRunState(addr *c04T) bool {
 	root, _ := c04AddrRoot(addr)
-	return root.kind == 'a' && root.al.Parent() == r.fn
+	switch root.kind {
+	case 'a':
+		return r.chainFns[c04Outermost(root.al.Parent())]
+	case 's':
+		return root.op == "param" || root.op == "pre" || root.op == "free" || root.from != nil
+	case 'i':
+		return true
+	}
+	return false
 }
 
 func (r *c04Run) needTimer() {
@@ -540,6 +710,10 @@ func (r *c04Run) plusOne(tr *c04Trace, f, r0 *c04T) (bool, string) {
 // evaluated on every path under the assumption that a map held in Run's state has no entry for the looked-up
 // key, with the given lower bounds for parameters.
 func (r *c04Run) firstCallReturns(key string, f *ssa.Function, paramMin map[*ssa.Parameter]int64, want bool, broken string) {
+	if c04Outermost(f).Pkg == nil {
+		r.c.Unsure(key, f.Pos(), "the predicate is a synthetic function that cannot be evaluated on its own")
+		return
+	}
 	x := c04NewExec(c04Cfg{root: f, emptyMaps: true, paramLo: paramMin})
 	trs := x.run()
 	if x.err != "" {
@@ -611,9 +785,19 @@ func c04T1(r *c04Run) {
 		return tr.same(e.args[0], r.finalRound(tr)), "the first timer is not created for the round the instance starts in"
 	})
 	// the round-changing closures really set the round
-	nStores, advancers := r.roundStores()
+	nStores, advancers, storeAt := r.roundStores()
 	if nStores == 0 {
-		c.Bad("Run round-changing closure sets round", r.roundAl.Pos(), "nothing inside the event loop ever stores a new value into the round state: no timeout or message can move the instance to the next round")
+		unf := ""
+		for _, tr := range r.its {
+			if u := c04Unfollowed(tr); u != "" {
+				unf = u
+			}
+		}
+		if unf != "" {
+			c.Unsure("Run round-changing closure sets round", r.sel.Pos(), "no store into the round state was found, but the event loop calls a function value that could not be resolved ("+unf+")")
+		} else {
+			c.Bad("Run round-changing closure sets round", r.sel.Pos(), "nothing inside the event loop ever stores a new value into the round state: no timeout or message can move the instance to the next round")
+		}
 	}
 	for _, f := range advancers {
 		x := c04NewExec(c04Cfg{root: f, isEvent: c04IsEvent})
@@ -622,7 +806,19 @@ func c04T1(r *c04Run) {
 			c.Unsure("Run round-changing closure sets round", f.Pos(), x.err)
 			continue
 		}
-		addr := x.addrFor(r.roundAl, -1, r.roundPath)
+		// the round state as this function sees it: the address its store instruction writes
+		var addr *c04T
+		for _, tr := range trs {
+			for _, e := range tr.evs {
+				if e.kind == "store" && e.in == storeAt[f] {
+					addr = e.addr
+				}
+			}
+		}
+		if addr == nil {
+			c.Unsure("Run round-changing closure sets round", f.Pos(), "the store into the round state is not reached when the function is evaluated on its own")
+			continue
+		}
 		initial := x.initOf(addr)
 		final := func(tr *c04Trace) *c04T {
 			if t, has := tr.mem[addr.k]; has {
@@ -631,7 +827,13 @@ func c04T1(r *c04Run) {
 			return initial
 		}
 		ok, why := false, "the closure does not store one of its parameters into the round state"
-		if len(f.Params) == 0 {
+		var cands []*ssa.Parameter // the parameters that can carry the new round
+		for _, p := range f.Params {
+			if types.Identical(p.Type(), r.roundInitType()) {
+				cands = append(cands, p)
+			}
+		}
+		if len(cands) == 0 {
 			ok = true
 			for _, tr := range trs {
 				if tr.exit == "ret" && final(tr).k == initial.k {
@@ -639,15 +841,13 @@ func c04T1(r *c04Run) {
 				}
 			}
 		}
-		for _, p := range f.Params {
+		for _, p := range cands {
 			pt := x.static(nil, nil, p)
 			good := true
 			for _, tr := range trs {
 				if tr.exit == "ret" && !tr.same(final(tr), pt) {
 					good = false
-					if types.Identical(p.Type(), r.roundInitType()) {
-						why = "the closure can return without storing the new round although it differs from the current one; path [" + tr.path() + "]"
-					}
+					why = "the closure can return without storing the new round although it differs from the current one; path [" + tr.path() + "]"
 				}
 			}
 			if good {
@@ -657,7 +857,7 @@ func c04T1(r *c04Run) {
 		c.Check("Run round-changing closure sets round", f.Pos(), ok, why)
 	}
 	if len(advancers) == 0 && nStores > 0 {
-		c.Good("Run round-changing closure sets round", r.roundAl.Pos(), "the round is assigned in Run itself")
+		c.Good("Run round-changing closure sets round", r.sel.Pos(), "the round is assigned in the event loop itself")
 	}
 	// timer case
 	var timer []*c04Trace
@@ -676,14 +876,20 @@ func c04T1(r *c04Run) {
 		_, _, just := r.cls(tr)
 		why := "the new round is not nextMinRound(d, justification, round)"
 		for _, u := range tr.equals(f) {
-			if !u.is("call:"+c04NextMin) || len(u.args) != 3 {
+			// the minimum-round helper: an in-package function of the f+1 ROUND-CHANGEs and the current round
+			if u.kind != 's' || !strings.HasPrefix(u.op, "call:static:"+c02P+".") {
 				continue
 			}
-			if !tr.same(u.args[1], just) {
+			hasJust, hasRound := false, false
+			for _, a := range u.args {
+				hasJust = hasJust || tr.same(a, just)
+				hasRound = hasRound || tr.same(a, r0)
+			}
+			if !hasJust {
 				why = "nextMinRound is not applied to the f+1 ROUND-CHANGEs returned by classify"
 				continue
 			}
-			if !tr.same(u.args[2], r0) {
+			if !hasRound {
 				why = "nextMinRound is not given the current round"
 				continue
 			}
@@ -718,8 +924,7 @@ func c04TimerParam(c *rt.Ctx, f *ssa.Function) int {
 func c04T2(r *c04Run) {
 	c := r.c
 	r.needTimer()
-	cmpFn := c.Fn(c02P + ".compare")
-	awaitFn := c.Fn(c02P + ".awaitCompare")
+	cmpFn, awaitFn := r.anch.compare, r.anch.await
 	cmpT, awaitT := c04TimerParam(c, cmpFn), c04TimerParam(c, awaitFn)
 
 	// (a) awaitCompare reports an expired timer with one sentinel error
@@ -804,7 +1009,10 @@ func c04T2(r *c04Run) {
 		}
 	}
 	// (b) compare hands its timer to awaitCompare and returns its verdict
-	{
+	if awaitFn == cmpFn {
+		c.Good("compare→awaitCompare timer", cmpFn.Pos(), "compare waits on the round timer itself")
+		c.Good("compare returns awaitCompare verdict", cmpFn.Pos(), "compare waits on the round timer itself")
+	} else {
 		x := c04NewExec(c04Cfg{root: cmpFn})
 		trs := x.run()
 		if x.err != "" {
@@ -1030,22 +1238,60 @@ func c04T4(r *c04Run) {
 	pos := r.sel.Pos()
 	// the input-value case of the select: it receives a value of the type broadcasts carry
 	var vt types.Type
-	for _, f := range r.x.family {
-		for _, in := range an.Instrs(f, false) {
-			if call, ok := in.(*ssa.Call); ok && r.x.callName(&call.Call) == c04Broadcast {
+	for _, tr := range r.its {
+		for _, e := range tr.evs {
+			if call, ok := e.in.(*ssa.Call); ok && e.kind == "call" && e.name == c04Broadcast && len(call.Call.Args) == 9 {
 				vt = call.Call.Args[5].Type()
 			}
 		}
 	}
+	// the input-value case: the receive whose value is what a later broadcast of the same iteration carries as value
+	// (the flush); failing that the one remaining receive that is neither the transport, the timer nor a signal
+	// channel (struct{}), or the one whose element type is the type broadcasts carry
 	inputK := -1
-	for k, st := range r.sel.States {
-		if ch, ok := st.Chan.Type().Underlying().(*types.Chan); ok && st.Dir == types.RecvOnly && vt != nil && types.Identical(ch.Elem(), vt) {
-			if inputK >= 0 {
-				c.Bail("Run: several select cases receive a value")
+	pick := func(ok func(k int, st *ssa.SelectState) bool) {
+		if inputK >= 0 {
+			return
+		}
+		n := 0
+		for k, st := range r.sel.States {
+			if st.Dir == types.RecvOnly && k != r.recvK && k != r.timerK && ok(k, st) {
+				inputK = k
+				n++
 			}
-			inputK = k
+		}
+		if n > 1 {
+			c.Bail("Run: several select cases receive a value")
 		}
 	}
+	pick(func(k int, _ *ssa.SelectState) bool {
+		for _, tr := range r.its {
+			if !r.inState(tr, k) {
+				continue
+			}
+			in := c04S("ext#"+strconv.Itoa(r.recvExtOf(k)), r.selRes(tr))
+			for _, e := range tr.evs {
+				if e.kind == "call" && e.name == c04Broadcast && len(e.args) == 9 && e.args[5].k == in.k {
+					return true
+				}
+			}
+		}
+		return false
+	})
+	pick(func(_ int, st *ssa.SelectState) bool {
+		ch, ok := st.Chan.Type().Underlying().(*types.Chan)
+		return ok && vt != nil && types.Identical(ch.Elem(), vt)
+	})
+	pick(func(_ int, st *ssa.SelectState) bool {
+		ch, ok := st.Chan.Type().Underlying().(*types.Chan)
+		if !ok {
+			return false
+		}
+		if s, isStruct := ch.Elem().Underlying().(*types.Struct); isStruct && s.NumFields() == 0 {
+			return false
+		}
+		return true
+	})
 	if inputK < 0 {
 		c.Bail("Run: no select case receives the input value")
 	}
@@ -1057,6 +1303,7 @@ func c04T4(r *c04Run) {
 	// the cache: the cell of Run that a quorum-round-change path stores classify's justification into
 	cache := ""
 	var cacheInit *c04T
+	flagInit := map[string]c04Lit{}
 	for _, tr := range qrc {
 		_, _, just := r.cls(tr)
 		i0 := r.ruleStartIdx(tr, "UponQuorumRoundChanges")
@@ -1066,6 +1313,18 @@ func c04T4(r *c04Run) {
 					c.Bail("Run: several cells cache a justification")
 				}
 				cache, cacheInit = e.addr.k, r.x.initOf(e.addr)
+				// companions: boolean state the same function sets to a constant together with the cache ("cached = true");
+				// "a justification is cached" then means the cache cell holds it and these flags have those values
+				for j, e2 := range tr.evs {
+					if j <= i0 || e2.kind != "store" || e2.addr.k == e.addr.k || !r.isRunState(e2.addr) || e2.in == nil || e.in == nil || e2.in.Parent() != e.in.Parent() {
+						continue
+					}
+					if b, isB := e2.val.isBool(); isB {
+						if f := tr.memFinal(e2.addr.k); f != nil && f.k == e2.val.k {
+							flagInit[e2.addr.k] = c04Lit{r.x.initOf(e2.addr), b}
+						}
+					}
+				}
 			}
 		}
 	}
@@ -1170,7 +1429,11 @@ func c04T4(r *c04Run) {
 		if !r.inState(tr, inputK) {
 			continue
 		}
-		if tr.consistent(c04Lit{c04Eq(cacheInit, c04Nil), false}, c04Lit{c04Eq(c04S("len", cacheInit), c04Int(0)), false}, c04Lit{c04Lt(c04Int(0), c04S("len", cacheInit)), true}) {
+		lits := []c04Lit{{c04Eq(cacheInit, c04Nil), false}, {c04Eq(c04S("len", cacheInit), c04Int(0)), false}, {c04Lt(c04Int(0), c04S("len", cacheInit)), true}}
+		for _, k := range c04SortedLitKeys(flagInit) {
+			lits = append(lits, flagInit[k])
+		}
+		if tr.consistent(lits...) {
 			input = append(input, tr)
 		}
 	}
@@ -1184,6 +1447,18 @@ func c04T4(r *c04Run) {
 		return false, "when the input value arrives a cached justification is not flushed as PRE-PREPARE(input value, cached justification): the leader's round never gets a proposal"
 	})
 }
+
+func c04SortedLitKeys(m map[string]c04Lit) []string {
+	var ks []string
+	for k := range m {
+		ks = append(ks, k)
+	}
+	sort.Strings(ks)
+	return ks
+}
+
+// memFinal: the content of the cell at the end of the path (nil if never written).
+func (tr *c04Trace) memFinal(addr string) *c04T { return tr.mem[addr] }
 
 // c04Slot is a loop-carried variable of Run as seen at the start of an iteration: a captured cell or a loop phi.
 func c04IsSlot(t *c04T) bool { return t.phi != nil || t.from != nil }
@@ -1225,6 +1500,13 @@ func c04T5(r *c04Run) {
 		}
 	}
 	if nd == 0 {
+		// absent on every path: positive evidence only if every path was followed to its end
+		for _, tr := range r.its {
+			if u := c04Unfollowed(tr); u != "" {
+				c.Unsure(key, r.fn.Pos(), "no DECIDED broadcast was found, but the event loop calls a function value that could not be resolved ("+u+"), so what it does is unknown")
+				return
+			}
+		}
 		c.Bad(key, r.fn.Pos(), "Run never broadcasts DECIDED: a member that missed the COMMIT quorum is never told the decision")
 		return
 	}
@@ -1300,6 +1582,7 @@ func c04T5(r *c04Run) {
 	var decided []*c04Trace
 	tested := false
 	limiters := map[*ssa.Function]bool{}
+	limRound := map[*ssa.Function]int{} // index of the round argument
 	for _, tr := range r.its {
 		ne, ok := nonEmpty(tr)
 		if !ok {
@@ -1327,13 +1610,17 @@ func c04T5(r *c04Run) {
 		}
 		refused := false
 		for _, e := range tr.evs {
-			if (e.kind != "call" && e.kind != "leave") || e.fn == nil || e.fn.Parent() == nil || e.res == nil || len(e.args) != 2 || !tr.same(e.args[0], src) || !tr.same(e.args[1], rnd) {
+			// the limiter: an in-package predicate asked about (source, round) of the message — a closure, a method of the
+			// state object or a function handed the map; followed or not
+			if !c04IsPredCall(e) {
 				continue
 			}
-			if b, ok := e.fn.Signature.Results().At(0).Type().Underlying().(*types.Basic); e.fn.Signature.Results().Len() != 1 || !ok || b.Kind() != types.Bool {
+			_, j, ok := c04ArgsHave(tr, e.args, src, rnd)
+			if !ok {
 				continue
 			}
 			limiters[e.fn] = true
+			limRound[e.fn] = j
 			if tr.has(e.res, false) {
 				refused = true
 			}
@@ -1371,12 +1658,130 @@ func c04T5(r *c04Run) {
 	}
 	sort.Slice(fs, func(i, j int) bool { return fs[i].Pos() < fs[j].Pos() })
 	for _, f := range fs {
-		r.firstCallReturns("Run decided-resend limiter first call", f, map[*ssa.Parameter]int64{f.Params[1]: 1}, true,
+		r.firstCallReturns("Run decided-resend limiter first call", f, map[*ssa.Parameter]int64{f.Params[limRound[f]]: 1}, true,
 			"the first ROUND-CHANGE of a lagging member is refused, so it is never told the decision")
 	}
 	if len(fs) == 0 {
 		c.Good("Run decided-resend limiter first call", pos, "the resend is not rate-limited")
 	}
+}
+
+// c04TableValues: m is a read of a package-level map variable that is assigned exactly once, in the package
+// initialiser, a map literal, and is never updated anywhere in the package; the values of the literal are returned.
+func c04TableValues(pkg *ssa.Package, m ssa.Value) ([]ssa.Value, bool) {
+	ld, ok := an.Unwrap(m).(*ssa.UnOp)
+	if !ok || ld.Op != token.MUL {
+		return nil, false
+	}
+	g, ok := ld.X.(*ssa.Global)
+	if !ok || g.Pkg != pkg || pkg == nil {
+		return nil, false
+	}
+	var mk *ssa.MakeMap
+	fns := append([]*ssa.Function{}, an.PkgFuncsAll(pkg)...)
+	if init := pkg.Func("init"); init != nil {
+		fns = append(fns, init)
+	}
+	for _, f := range fns {
+		for _, in := range an.Instrs(f, false) {
+			switch x := in.(type) {
+			case *ssa.Store:
+				if x.Addr != ssa.Value(g) {
+					continue
+				}
+				mm, isMk := x.Val.(*ssa.MakeMap)
+				if !isMk || mk != nil || f.Name() != "init" {
+					return nil, false
+				}
+				mk = mm
+			case *ssa.MapUpdate:
+				if l, isLd := an.Unwrap(x.Map).(*ssa.UnOp); isLd && l.X == ssa.Value(g) {
+					return nil, false
+				}
+			case ssa.CallInstruction:
+				// the variable's address or the map itself handed to a function: it may be written there
+				for _, a := range x.Common().Args {
+					if a == ssa.Value(g) {
+						return nil, false
+					}
+					if l, isLd := an.Unwrap(a).(*ssa.UnOp); isLd && l.X == ssa.Value(g) {
+						if b, isB := x.Common().Value.(*ssa.Builtin); !isB || b.Name() != "len" {
+							return nil, false
+						}
+					}
+				}
+			}
+		}
+	}
+	if mk == nil {
+		return nil, false
+	}
+	var vals []ssa.Value
+	for _, ref := range *mk.Referrers() {
+		switch x := ref.(type) {
+		case *ssa.MapUpdate:
+			vals = append(vals, x.Value)
+		case *ssa.Store, *ssa.DebugRef:
+		default:
+			return nil, false
+		}
+	}
+	return vals, len(vals) > 0
+}
+
+// c04IsPredCall: the event is the call (followed or not) of an in-package function with a single boolean result.
+func c04IsPredCall(e *c04Ev) bool {
+	if (e.kind != "call" && e.kind != "leave") || e.fn == nil || e.res == nil || len(e.fn.Blocks) == 0 {
+		return false
+	}
+	res := e.fn.Signature.Results()
+	if res.Len() != 1 {
+		return false
+	}
+	b, ok := res.At(0).Type().Underlying().(*types.Basic)
+	return ok && b.Kind() == types.Bool
+}
+
+// c04ArgsHave: the argument list contains a and, later, b (other arguments — a receiver, a map, a context — may
+// surround them).
+func c04ArgsHave(tr *c04Trace, args []*c04T, a, b *c04T) (int, int, bool) {
+	for i := range args {
+		if !tr.same(args[i], a) {
+			continue
+		}
+		for j := i + 1; j < len(args); j++ {
+			if tr.same(args[j], b) {
+				return i, j, true
+			}
+		}
+	}
+	return -1, -1, false
+}
+
+// c04IsLookupOf: t is (the presence flag / boolean element of) a map lookup whose key is built from v.
+func c04IsLookupOf(t, v *c04T) bool {
+	for t.is("ext#1") || t.is("ext#0") {
+		t = t.args[0]
+	}
+	if !(t.is("lookup") || t.is("lookup2")) || len(t.args) != 2 {
+		return false
+	}
+	return c04Contains(t.args[1], v)
+}
+
+func c04Contains(t, v *c04T) bool {
+	if t == nil {
+		return false
+	}
+	if t.k == v.k {
+		return true
+	}
+	for _, a := range t.args {
+		if c04Contains(a, v) {
+			return true
+		}
+	}
+	return false
 }
 
 // c04RuleConsts collects the constants result idx of fn can be, following phis, result slots, the results of
@@ -1463,6 +1868,20 @@ func c04RuleConsts(fn *ssa.Function, idx int, out map[int64]bool) bool {
 					return
 				}
 			}
+			if lk, isLk := a.Tuple.(*ssa.Lookup); isLk && lk.CommaOk && a.Index == 0 {
+				walk(lk)
+				return
+			}
+		case *ssa.Lookup:
+			// a table: a package-level map filled once by its initialiser and never written again; a missing key
+			// yields the zero value
+			if vals, isTable := c04TableValues(fn.Pkg, a.X); isTable {
+				for _, v := range vals {
+					walk(v)
+				}
+				out[0] = true
+				return
+			}
 		case *ssa.Call:
 			if g := local(&a.Call); g != nil && g.Signature.Results().Len() == 1 {
 				results(g, 0)
@@ -1475,7 +1894,7 @@ func c04RuleConsts(fn *ssa.Function, idx int, out map[int64]bool) bool {
 					pi = i
 				}
 			}
-			for _, f := range an.PkgFuncs(fn.Pkg) {
+			for _, f := range an.PkgFuncsAll(fn.Pkg) {
 				for _, in := range an.Instrs(f, false) {
 					ci, isCall := in.(ssa.CallInstruction)
 					if !isCall {
@@ -1504,7 +1923,7 @@ func c04RuleConsts(fn *ssa.Function, idx int, out map[int64]bool) bool {
 func c04T6(r *c04Run) {
 	c := r.c
 	pos := r.sel.Pos()
-	cl := c.Fn(c02P + ".classify")
+	cl := r.anch.classify
 	returned := map[int64]bool{}
 	if !c04RuleConsts(cl, 0, returned) {
 		c.Unsure("classify result", cl.Pos(), "classify returns a computed rule")
@@ -1548,6 +1967,7 @@ func c04T6(r *c04Run) {
 		c.Check("Run dispatch handles "+name, pos, ok, why)
 	}
 	dups := map[*ssa.Function]bool{}
+	inlineDup := false
 	var through []*c04Trace
 	for _, tr := range withCls {
 		if tr.exit == "stop" || tr.exit == "ret" {
@@ -1565,11 +1985,18 @@ func c04T6(r *c04Run) {
 			if e.kind == "dec" && e.truth && e.val.is("eq") && e.val.args[0].k == rule.k && e.val.args[1].kind == 'k' {
 				ok = true
 			}
-			if (e.kind == "call" || e.kind == "leave") && e.fn != nil && e.fn.Parent() != nil && e.res != nil && len(e.args) == 2 && e.args[0].k == rule.k && tr.same(e.args[1], rnd) {
-				dups[e.fn] = true
-				if tr.has(e.res, true) {
-					ok = true // duplicate: skip
+			if c04IsPredCall(e) {
+				if _, _, has := c04ArgsHave(tr, e.args, rule, rnd); has {
+					dups[e.fn] = true
+					if tr.has(e.res, true) {
+						ok = true // duplicate: skip
+					}
 				}
+			}
+			// the duplicate filter written in line: the path found an entry for a key built from the rule in a map
+			if e.kind == "dec" && e.truth && c04IsLookupOf(e.val, rule) {
+				inlineDup = true
+				ok = true
 			}
 		}
 		if !ok {
@@ -1590,7 +2017,11 @@ func c04T6(r *c04Run) {
 		r.firstCallReturns("Run duplicate-rule filter first call", f, nil, false,
 			"a rule firing for the first time in a round is treated as a duplicate and skipped")
 	}
-	if len(fs) == 0 {
+	if len(fs) == 0 && inlineDup {
+		// the filter is a map test written into the loop: the "first call" is the path on which the lookup misses, and
+		// the dispatch obligation above already covers it (such a path must reach the dispatch)
+		c.Good("Run duplicate-rule filter first call", pos, "the duplicate filter is a map lookup in the loop; its miss edge reaches the dispatch")
+	} else if len(fs) == 0 {
 		c.Good("Run duplicate-rule filter first call", pos, "rules are not de-duplicated")
 	}
 }
